@@ -11,6 +11,7 @@ import KafkaVerif.Model.TransportConn
 import KafkaVerif.Lemmas.BatchBytes
 import KafkaVerif.Gen.MuxFacts
 import KafkaVerif.Model.WireProg
+import KafkaVerif.Model.ConnDeadline
 
 namespace KV.C06
 open KV KV.ConnMux
@@ -1138,11 +1139,9 @@ theorem batch_close_consumes_frame (expired : Bool) (v : Nat) (offset : Int) (fu
     ((fetchBatch expired v offset fuel ops s).kept = true → FrameDone (fetchBatch expired v offset fuel ops s).rs) := by
   have ho := openBatch_shape expired v offset s
   have hops := runOps_adv expired fuel ops (openBatch expired v offset s)
-  have hk := batchClose_kept (runOps expired fuel ops (openBatch expired v offset s)).2
   have hcl : Adv (runOps expired fuel ops (openBatch expired v offset s)).2.rs
       (batchClose (runOps expired fuel ops (openBatch expired v offset s)).2).2.1 := by
-    unfold batchClose
-    simp only
+    rw [batchClose_rs]
     split
     · exact conserves_discardN _ _
     · exact Adv.refl _
@@ -1153,21 +1152,64 @@ theorem batch_close_consumes_frame (expired : Bool) (v : Nat) (offset : Int) (fu
     simp only [fetchBatch] at hkept ⊢
     rcases ho.2 with ⟨hm, he⟩ | ⟨he, hfd⟩ | ⟨hm, e, hee, hdone⟩
     · -- a real reader: Close discards whatever is left
-      unfold batchClose
+      rw [batchClose_rs]
       simp only [hops.2.1, hops.2.2, hm, he, Bool.not_false, Bool.and_self, ↓reduceIte]
       exact discard_rest_done _
     · -- the watermark shortcut: nothing is read, nothing may be there
       have hrs := runOps_empty_rs expired fuel ops _ he
-      unfold batchClose
+      rw [batchClose_rs]
       simp only [hops.2.2, he, Bool.not_true, Bool.and_false, Bool.false_eq_true, ↓reduceIte, hrs]
       exact hfd
     · -- the header failed: the Batch is born with an error and never reads
       have hfix := runOps_err_fixed expired fuel ops _ e hee
+      have hnd : ((runOps expired fuel ops (openBatch expired v offset s)).2.hasMsgs &&
+          !(runOps expired fuel ops (openBatch expired v offset s)).2.empty) = false := by
+        rw [hfix]; simp [hm]
+      have hk := batchClose_kept_nodiscard _ hnd
       rw [hfix] at hk hkept ⊢
       rw [hk, hee] at hkept
-      unfold batchClose
+      rw [batchClose_rs]
       simp only [hm, Bool.false_and, Bool.false_eq_true, ↓reduceIte]
       exact hdone hkept
+
+/-- **batch_close_kept_means_consumed_to_the_last_byte** (since /repo 7936b6a).  When the Batch has a real message-set
+reader, a kept conn has consumed the frame completely — the weaker "or the stream has ended" of `FrameDone` is gone:
+if the rest of the response cannot be skipped (it is late, the connection broke) `Close` reports it and closes.  Before
+that fix the model had to ignore the discard's result, and the theorem above could only promise `FrameDone`. -/
+theorem batch_close_kept_means_consumed_to_the_last_byte (expired : Bool) (v : Nat) (offset : Int) (fuel : Nat)
+    (ops : List Op) (s : RS)
+    (hreal : (openBatch expired v offset s).hasMsgs = true ∧ (openBatch expired v offset s).empty = false)
+    (hkept : (fetchBatch expired v offset fuel ops s).kept = true) :
+    (fetchBatch expired v offset fuel ops s).rs.sz = 0 ∧
+      (fetchBatch expired v offset fuel ops s).rs.inp = s.inp.drop s.sz := by
+  have hops := runOps_adv expired fuel ops (openBatch expired v offset s)
+  have hz : (fetchBatch expired v offset fuel ops s).rs.sz = 0 := by
+    simp only [fetchBatch] at hkept ⊢
+    have hd : ((runOps expired fuel ops (openBatch expired v offset s)).2.hasMsgs &&
+        !(runOps expired fuel ops (openBatch expired v offset s)).2.empty) = true := by
+      simp [hops.2.1, hops.2.2, hreal.1, hreal.2]
+    obtain ⟨u, hu⟩ := (batchClose_kept_imp _ hkept).2 hd
+    rw [batchClose_rs]
+    simp only [hd, ↓reduceIte]
+    cases hr : discardN (↑(runOps expired fuel ops (openBatch expired v offset s)).2.rs.sz)
+        (runOps expired fuel ops (openBatch expired v offset s)).2.rs with
+    | mk r s2 =>
+      rw [hr] at hu; simp only at hu; subst hu
+      exact discardN_all_ok hr
+  exact ⟨hz, ((batch_close_consumes_frame expired v offset fuel ops s).1.consumed_all hz).2⟩
+
+/-- a discard that fails makes Close fail and closes the conn, whatever the batch ended with -/
+theorem failed_discard_closes (b : BSt) (hd : (b.hasMsgs && !b.empty) = true) (e : Err)
+    (he : (discardN (↑b.rs.sz) b.rs).1 = .error e) :
+    (batchClose b).2.2 = false ∧ (batchClose b).1 = some (ofErr e) := by
+  constructor
+  · cases hk : (batchClose b).2.2 with
+    | false => rfl
+    | true =>
+      obtain ⟨u, hu⟩ := (batchClose_kept_imp b hk).2 hd
+      rw [he] at hu; cases hu
+  · unfold batchClose
+    simp only [hd, ↓reduceIte, he]
 
 /-- the same for every request/response operation that goes through `(*Conn).do` (C11's operation table over the
 regenerated `readFrom` programs): `Event.finish ok` and `finish kafka` of Model/ConnMux are `Outcome.ok` /
@@ -1465,18 +1507,26 @@ def batchCloseModelRow (sc : List String) : List String :=
     else if sc.contains "err=short" then some .shortBuffer
     else some .other
   let body := sampleFetchBody 5
+  -- `discardFailed`: the stream ends 7 bytes before the frame does (the rest is late, or the connection broke)
   let b : BatchBytes.BSt :=
-    { rs := ⟨body, body.length⟩, pending := none, offset := 0, err := err, hasMsgs := flag sc "hasMsgs", empty := false }
+    { rs := ⟨body, if flag sc "discardFailed" then body.length + 7 else body.length⟩, pending := none, offset := 0, err := err,
+      hasMsgs := flag sc "hasMsgs", empty := false }
   let (_, rs', kept) := BatchBytes.batchClose b
   let unlocked := match run [⟨1, 0⟩] [.write 0 true 1, .take 1, .finish 1 (if kept then .ok else .io)] with
     | some s => s.rlock.isNone
     | none => false
   (if rs' != b.rs then ["discard"] else []) ++ (if kept then [] else ["closeConn"]) ++ (if unlocked then ["unlock"] else [])
 
+/-- the attach / detach steps of the deadline object are the subject of Model/ConnDeadline.lean (Part 6:
+`flow_tables_release_detached`); the multiplexer models do not speak about them -/
+def noDeadline (eff : List String) : List String :=
+  eff.filter (fun e => !(e == "attach" || e == "detach" || e == "defer:detach"))
+
+set_option maxRecDepth 8192 in
 /-- the extracted decision tables are the models' transitions -/
 theorem flow_tables_are_the_models :
-    Gen.MuxFacts.batchCloseFlow.all (fun (sc, eff) => batchCloseModelRow sc == eff) = true ∧
-    Gen.MuxFacts.apiVersionsFlow.all (fun (sc, eff) => apiVersionsModelRow sc == eff) = true ∧
+    Gen.MuxFacts.batchCloseFlow.all (fun (sc, eff) => batchCloseModelRow sc == noDeadline eff) = true ∧
+    Gen.MuxFacts.apiVersionsFlow.all (fun (sc, eff) => apiVersionsModelRow sc == noDeadline eff) = true ∧
     Gen.MuxFacts.readBatchWithFlow.all (fun (sc, eff) => readBatchWithModelRow sc == eff) = true ∧
     Gen.MuxFacts.releaseConnFlow.all (fun (sc, eff) => releaseConnModelRow sc == eff) = true ∧
     Gen.MuxFacts.grabConnFlow.all (fun (sc, eff) => grabConnModelRow sc == eff) = true ∧
@@ -1484,11 +1534,156 @@ theorem flow_tables_are_the_models :
     Gen.MuxFacts.closeIdleConnsFlow.all (fun (sc, eff) => closeIdleConnsModelRow sc == eff) = true ∧
     Gen.MuxFacts.doRequestFlow.all (fun (sc, eff) => doRequestModelRow sc == eff) = true ∧
     Gen.MuxFacts.roundTripFlow.all (fun (sc, eff) => roundTripModelRow sc == eff) = true ∧
-    Gen.MuxFacts.waitResponseFlow.all (fun (sc, eff) => waitResponseModelRow sc == eff) = true ∧
-    Gen.MuxFacts.doFlow.all (fun (sc, eff) => doModelRow sc == eff) = true ∧
+    Gen.MuxFacts.waitResponseFlow.all (fun (sc, eff) => waitResponseModelRow sc == noDeadline eff) = true ∧
+    Gen.MuxFacts.doFlow.all (fun (sc, eff) => doModelRow sc == noDeadline eff) = true ∧
     Gen.MuxFacts.runFlow.all (fun (sc, eff) => runModelRow sc == eff) = true := by
   decide
 
 end Flow
+
+/-! ## Part 6 — the socket's read deadline belongs to the operation that holds the read lock
+
+Model/ConnDeadline.lean.  The discipline "whoever gives the read lock back detaches its deadline object first"
+(`disciplined`) is what the code must follow; the regenerated decision tables of `waitResponse`, `do`, `ApiVersions`
+and `Batch.close` show it (`flow_tables_release_detached` below).  Under it the read deadline of the socket is, at
+every moment, the CURRENT value of the deadline object of the operation that reads: a SetDeadline / SetWriteDeadline
+meant for something else never ends somebody's read (finding C06-D31: `ApiVersions` left its deadline object attached
+— after a negotiation that ran under the write deadline, every later SetWriteDeadline rewrote the socket's READ
+deadline and timed out an unrelated read that had no deadline at all). -/
+
+section Deadline
+open KV.ConnDeadline
+
+/-- only the lock holder's deadline object is attached, and the socket carries its current value -/
+def DInv (s : ConnDeadline.State) : Prop :=
+  (∀ o, (s.obj o).attached = true → s.holder = some o) ∧
+  (∀ o, s.holder = some o → s.sock = (s.obj o).value ∧ (s.obj o).attached = true)
+
+theorem dinv_init : DInv ConnDeadline.init := by
+  constructor
+  · intro o h; cases o <;> simp [ConnDeadline.init, State.obj] at h
+  · intro o h; simp [ConnDeadline.init] at h
+
+theorem dinv_step {s s' : ConnDeadline.State} {e : ConnDeadline.Event} (hi : DInv s)
+    (h : ConnDeadline.step s e = some s') (hd : e ≠ .release false) : DInv s' := by
+  obtain ⟨ha, hg⟩ := hi
+  cases e with
+  | set o t =>
+    simp only [ConnDeadline.step, Option.some.injEq] at h; subst h
+    constructor
+    · intro o' hat
+      have := ha o'
+      cases o <;> cases o' <;> simp_all [State.obj, State.setObj]
+    · intro o' hh
+      have h1 := hg o'
+      have h2 := ha o
+      cases o <;> cases o' <;> simp_all [State.obj, State.setObj]
+  | attach o =>
+    simp only [ConnDeadline.step] at h
+    split at h
+    · next hn =>
+      simp only [Option.some.injEq] at h; subst h
+      have hr := ha .r
+      have hw := ha .w
+      constructor
+      · intro o' hat
+        cases o <;> cases o' <;> simp_all [State.obj, State.setObj]
+      · intro o' hh
+        cases o <;> cases o' <;> simp_all [State.obj, State.setObj]
+    · cases h
+  | release d =>
+    cases d with
+    | false => exact absurd rfl hd
+    | true =>
+      simp only [ConnDeadline.step] at h
+      split at h
+      · next o ho =>
+        simp only [Option.some.injEq] at h; subst h
+        have hr := ha .r
+        have hw := ha .w
+        constructor
+        · intro o' hat
+          cases o <;> cases o' <;> simp_all [State.obj, State.setObj]
+        · intro o' hh
+          cases o <;> simp_all [State.setObj]
+      · cases h
+
+theorem dinv_run : ∀ (es : List ConnDeadline.Event) (s s' : ConnDeadline.State), DInv s →
+    ConnDeadline.disciplined es = true → ConnDeadline.runFrom s es = some s' → DInv s' := by
+  intro es
+  induction es with
+  | nil => intro s s' hi _ h; simp [ConnDeadline.runFrom] at h; subst h; exact hi
+  | cons e es ih =>
+    intro s s' hi hd h
+    simp only [ConnDeadline.runFrom] at h
+    split at h
+    · cases h
+    · next s1 h1 =>
+      have hne : e ≠ .release false := by
+        intro he; subst he; simp [ConnDeadline.disciplined] at hd
+      have hd' : ConnDeadline.disciplined es = true := by
+        cases e with
+        | set o t => simpa [ConnDeadline.disciplined] using hd
+        | attach o => simpa [ConnDeadline.disciplined] using hd
+        | release d => cases d <;> simp_all [ConnDeadline.disciplined]
+      exact ih s1 s' (dinv_step hi h1 hne) hd' h
+
+/-- **deadline_isolation** — for every interleaving of SetReadDeadline / SetWriteDeadline calls with operations that
+attach their deadline object under the read lock and detach it before they give the lock back: while an operation
+holds the read lock, the socket's read deadline IS the current value of that operation's own deadline object -/
+theorem deadline_isolation (es : List ConnDeadline.Event) (s : ConnDeadline.State)
+    (hd : ConnDeadline.disciplined es = true) (h : ConnDeadline.run es = some s) (o : Obj) (hh : s.holder = some o) :
+    s.sock = (s.obj o).value :=
+  ((dinv_run es ConnDeadline.init s dinv_init hd h).2 o hh).1
+
+/-- a deadline set on the OTHER object while somebody reads does not touch the socket -/
+theorem foreign_deadline_is_inert (es : List ConnDeadline.Event) (s s' : ConnDeadline.State)
+    (hd : ConnDeadline.disciplined es = true) (h : ConnDeadline.run es = some s) (o o' : Obj) (hh : s.holder = some o)
+    (hne : o' ≠ o) (t : Nat) (hs : ConnDeadline.step s (.set o' t) = some s') : s'.sock = s.sock := by
+  have ha := (dinv_run es ConnDeadline.init s dinv_init hd h).1 o'
+  simp only [ConnDeadline.step, Option.some.injEq] at hs; subst hs
+  cases hat : (s.obj o').attached with
+  | false => cases o' <;> simp_all [State.obj, State.setObj]
+  | true => have := ha hat; rw [hh] at this; simp at this; exact absurd this.symm hne
+
+/-- the discipline is needed — the pre-fix `ApiVersions`: negotiation under the write deadline, lock given back with
+the object still attached; then a read with no read deadline, and a SetWriteDeadline(5) meant for a later write: the
+socket's read deadline becomes 5 while the reader's own deadline object says "none" -/
+theorem stale_attachment_counterexample :
+    (ConnDeadline.run [.attach .w, .release false, .attach .r, .set .w 5]).map
+      (fun s => (s.holder, s.sock, s.r.value)) = some (some .r, 5, 0) := by decide
+
+/-- with the detach the same schedule leaves the reader alone -/
+theorem detached_schedule_example :
+    (ConnDeadline.run [.attach .w, .release true, .attach .r, .set .w 5]).map
+      (fun s => (s.holder, s.sock, s.r.value)) = some (some .r, 0, 0) := by decide
+
+/-- a row of a decision table respects the discipline: walking its effects (deferred calls run in reverse order at the
+end), no `unlock` happens while the deadline object is attached.  `attach` = setConnReadDeadline, `waitResponse` (as a
+callee) returns with the lock held and the object attached, `detach` = unsetConnReadDeadline. -/
+def undefer : String → Option String
+  | "defer:unlock" => some "unlock"
+  | "defer:detach" => some "detach"
+  | _ => none
+
+def rowDetaches (attached0 : Bool) (effs : List String) : Bool :=
+  let walk := fun (st : Bool × Bool) (e : String) =>
+    -- st = (attached, ok)
+    if e == "attach" || e == "waitResponse" then (true, st.2)
+    else if e == "detach" then (false, st.2)
+    else if e == "unlock" then (st.1, st.2 && !st.1)
+    else st
+  ((effs ++ (effs.filterMap undefer).reverse).foldl walk (attached0, true)).2
+
+/-- the four functions that give the read lock back, as extracted this run, detach first in every scenario
+(`Batch.close` starts with the lock held and the object attached by `ReadBatchWith`'s `waitResponse`) -/
+theorem flow_tables_release_detached :
+    Gen.MuxFacts.waitResponseFlow.all (fun (_, eff) => rowDetaches false eff) = true ∧
+    Gen.MuxFacts.doFlow.all (fun (_, eff) => rowDetaches false eff) = true ∧
+    Gen.MuxFacts.apiVersionsFlow.all (fun (_, eff) => rowDetaches false eff) = true ∧
+    Gen.MuxFacts.batchCloseFlow.all (fun (_, eff) => rowDetaches true eff) = true := by
+  set_option maxRecDepth 8192 in decide
+
+end Deadline
 
 end KV.C06
